@@ -124,6 +124,13 @@ func (x *Exec) verifyFunction(fn *ssa.Function, con *Contract, ifaceCon *Contrac
 			st.Assume(ctx.boolExpr(r.E, false))
 		}
 	}
+	x.curDecr = nil
+	if active != nil {
+		for _, d := range active.Decr {
+			ctx.clause = active.Key + "/decreases"
+			x.curDecr = append(x.curDecr, ctx.intExpr(d.E))
+		}
+	}
 	// vacuity: the precondition must be satisfiable
 	x.obls = append(x.obls, &Obligation{Func: x.curFn, Kind: "cover", Name: "requires", Goal: "false",
 		Assume: append([]string(nil), st.assume...), Decls: append([]string(nil), st.decls...), Pos: x.posStr(fn.Pos())})
